@@ -12,6 +12,9 @@ import subprocess
 ROOT = os.path.dirname(os.path.dirname(os.path.abspath(__file__)))
 
 MAP = [
+    ("PrivateKey.wif uses the key's own compression flag", "C09", "PrivateKey.parse(uncompressed WIF).wif() returned the compressed WIF (the default argument shadowed the key's flag)"),
+    ("p2sh finalize counts the signatures without the leading OP_0", "C10", "p2sh input with m-1 cosigner signatures plus a valid signature by a key outside the redeem script finalised (the OP_0 dummy was counted as a signature); the result did not parse"),
+    ("PSBT validation treats a witness input by its script type whichever UTXO form describes it", "C10", "a segwit input carrying both UTXO forms (as Bitcoin Core writes them) was parsed, re-serialised with the previous transaction only, and that serialisation was refused on the next parse; signatures of such inputs were checked against the legacy digest"),
     ("P2WSHSortedMulti.parse accepts nothing but an optional checksum after the descriptor body", "C16", "the '#' replaced by any other character: the nine trailing characters were ignored and the descriptor accepted without any checksum comparison"),
     ("PSBTIn.validate refuses a non-witness UTXO for a native witness input", "C11", "p2wsh input described by a full previous transaction instead of a witness UTXO: nothing tied the attached (foreign, 1-of-n) witness script to the UTXO and the PSBT was summarised; partial signatures of such inputs were checked against the legacy digest"),
     ("PSBTOut.validate accepts a WitnessScript only for a p2wsh or p2sh-p2wsh output", "C11", "change metadata kept while the output became OP_1 <sha256(witness script)> (P2TR shaped, unspendable): still labelled change"),
